@@ -1340,6 +1340,15 @@ PREFIX(_intersect_rect) (region_type_t *dest,
     region.extents.x2 = x + width;
     region.extents.y2 = y + height;
 
+    if (!GOOD_RECT (&region.extents))
+    {
+        if (BAD_RECT (&region.extents))
+            _pixman_log_error (FUNC, "Invalid rectangle passed");
+
+	/* Intersecting with nothing gives nothing */
+	region.data = pixman_region_empty_data;
+    }
+
     return PREFIX(_intersect) (dest, source, &region);
 }
 
